@@ -65,6 +65,10 @@ class _Emit(Client):
         return False
 
     def _is_cursor(self, e, ctx) -> bool:
+        # the cursor field, or a local that was bound to it and is still current (`expected = self._waiting_for`, cursor not
+        # written since: the snapshots are dropped at every write of the cursor)
+        if isinstance(e, ast.Name) and (ctx.func.qual, e.id) in getattr(self, "snaps", ()):
+            return True
         return dotted(e) == (ctx.func.self_name, self.bf.cursor)
 
     def _is_storage(self, e, ctx) -> bool:
@@ -196,8 +200,13 @@ class _Emit(Client):
 
     def event(self, kind, node, state, ctx: Ctx):
         pd, pa, guard, isnext, stored = state
+        if not hasattr(self, "snaps"):
+            self.snaps = set()
         if kind == "store" and isinstance(node, ast.Name):
             av = assigned_value(node)
+            self.snaps.discard((ctx.func.qual, node.id))
+            if av is not None and dotted(av) == (ctx.func.self_name, self.bf.cursor):
+                self.snaps.add((ctx.func.qual, node.id))
             # x = storage.pop(cursor[, default])  /  while x := storage.pop(cursor, None)
             if isinstance(av, ast.Call) and isinstance(av.func, ast.Attribute) and av.func.attr == "pop" \
                     and self._is_storage(av.func.value, ctx) and av.args and self._is_cursor(av.args[0], ctx):
@@ -241,7 +250,8 @@ class _Emit(Client):
             return ((None, pa, False, isnext, stored),)
         if kind in ("aug", "store"):
             tgt = node.target if kind == "aug" else node
-            if self._is_cursor(tgt, ctx):
+            if dotted(tgt) == (ctx.func.self_name, self.bf.cursor):
+                self.snaps.clear()
                 if kind == "aug" and not (isinstance(node.op, ast.Add) and const_value(node.value) == 1):
                     self.problems.append((node.lineno, f"cursor updated by `{src(node)}` instead of += 1"))
                 npa = None if pa in ("cursor", "late") else pa
